@@ -86,6 +86,20 @@ CLAIMS = {
         note="Sounds are driven directly with MockInfoBuilder (mock clock at end-of-chunk time); the unload sub-check uses AudioManager with the custom backend. Exhaustive only within the stated depth and alphabet.",
         design="5/C03",
     ),
+    "C10": dict(
+        level="fault_enumeration",
+        technique="fault-injection property-based testing with a scripted decoder (k-th decode / seek call fails once or forever) and real decoder threads paced through hook H2, over generated scenarios (natural end, stop, refused by a full track, track / manager dropped, paused parent) and decoder paces; bounded-exhaustive enumeration of every fault position of short streams",
+        text="Every case plays one streaming sound over a scripted decoder through the real manager. The decoder object's Drop is the observation that the decoding thread has ended: it must be seen within 2 s of the sound finishing, being stopped, failing, being refused by a full track or being discarded with its manager; the decode loop must not run without sleeping while it delivers nothing; after a scripted fault the sound must be Stopped after the next processed callback (after resume for a paused parent), unloaded one callback later, silent, and pop_error() must return the first fault; with a starving or stalled decoder the audible frames must be a strictly increasing subsequence of the index-coded source with at most one frame skipped per gap. All fault positions for stream lengths 1..24 (thorough 1..64) x packet sizes 1..4 (1..8) x once/forever x main/sub-track are enumerated; longer streams, scenarios and paces are random.",
+        note="'Bounded time' is fixed at 2 s and the idle-spin bound at 2w+50 iterations per w ms. The track-handle-dropped scenario is a known finding (excluded by construction, replayed as a witness). The harness owns the schedule at decoder-step granularity, not inside a step.",
+        design="5/C10",
+    ),
+    "C07": dict(
+        level="exploration",
+        technique="model-based stateful property testing of command delivery through the real manager (reference that applies the last command of each kind once at the start of the next callback: volume paths, token probes built on kira::command, seek jumps, decoder delivery log through hook H2, clock and tweener models) plus randomised real-thread races on the command primitive and on handles with monotone self-checking payloads",
+        text="Six generated scenario families: volume setters with tweens on four resources of one signal path compared frame by frame with the reference; probe Sound / Effect / Modulator objects that read a token reader once per on_start_processing (reads must be exactly the last token of each burst, once, in the following callback, including tokens written before the probe is added or before its first callback); seek bursts on a static sound (exactly one audible jump, in the next callback, by the last command) and seek / loop-region bursts on a streaming sound whose decoder gets 0..130 steps per gap (delivered indices must equal a reference transport that applies the last command at the decoder's next step); clock start / pause / stop / set_speed and tweener set() bursts against reference models; a writer thread racing a reader on one CommandWriter / CommandReader pair (untorn, strictly newer, last write read); a gameplay thread playing a sound and raising volumes while callbacks run (output never decreases, ends at the last value). Search with shrinking.",
+        note="No yield-point hook (H3) was added: the triple buffer is an external crate, so whole-operation orders are exactly the generated histories, and orders inside a write/read are only reached by the two real-thread families, whose schedule belongs to the operating system (a torn or stale read there is detected when it happens, but cannot be forced).",
+        design="5/C07",
+    ),
     "C09": dict(
         level="exploration",
         technique="differential property-based testing: the same generated audio, settings and command history played as a static sound and as two streaming sounds over scripted decoders (different packet splits / seek behaviour), compared bit-for-bit in lock-step",
